@@ -228,6 +228,40 @@ func parseTexts(trees []Tree, tier string) []string {
 			out = append(out, text[:i]+"\x00"+text[i:], text[:i]+"}"+text[i+1:], text[:i]+`"`+text[i:])
 		}
 	}
+	out = append(out, lexTexts(os.Getenv("VERIF_LEXROWS"))...)
+	return out
+}
+
+// lexTexts: the texts generated from the state graph of the JSON automaton (Gen_Lex), canonical spelling, one host per context
+func lexTexts(path string) []string {
+	if path == "" {
+		return nil
+	}
+	var out []string
+	readLines(path, func(line []byte) error {
+		var raw []json.RawMessage
+		if json.Unmarshal(line, &raw) != nil || len(raw) < 4 {
+			return nil
+		}
+		var ctx int
+		var atoms []int
+		json.Unmarshal(raw[1], &ctx)
+		json.Unmarshal(raw[2], &atoms)
+		if ctx == 4 {
+			return nil
+		}
+		var fb strings.Builder
+		for _, a := range atoms {
+			fb.WriteString(atomReps[a][0])
+		}
+		for _, h := range lexHosts {
+			if h.ctx == ctx {
+				out = append(out, h.pre+fb.String()+h.post)
+				break
+			}
+		}
+		return nil
+	})
 	return out
 }
 
